@@ -775,7 +775,7 @@ pub fn c08(em: &mut Emit, thorough: bool, seed: u64) {
 /// Python's zlib from the `AUX gz` records.
 pub fn c09(em: &mut Emit, thorough: bool, seed: u64) {
     let mut rng = Rng::new(seed ^ 0xC09);
-    let n = if thorough { 20_000 } else { 1_200 };
+    let n = if thorough { 8_000 } else { 1_200 };
     for i in 0..n {
         let cap = *rng.pick(&[1usize, 2, 3, 7, 64, 4096, 65536]);
         let level = 1 + (i as u32 % 9);
